@@ -369,6 +369,19 @@ ROUND7 = {
 }
 
 
+ROUND8 = {
+ 'C01': 'Round 8: a program declared after one without libraries still gets its library; a slot failing only next to other steps is reported.',
+ 'C02': 'Round 8: as C01.',
+ 'C03': 'Round 8: multi-line cmds= with a leading string line; test_deps() (kind tdeps).',
+ 'C05': 'Round 8: one of several outputs of a step named again.',
+ 'C06': 'Round 8: test_deps(); the directed scripts of C03 on both backends.',
+ 'C07': 'Round 8: one header name in two include directories (the first copy renamed away / deleted).',
+ 'C13': 'Round 8: invoking directory reached through a symbolic link with $PWD carrying that spelling.',
+ 'C18': 'Round 8: dist=False file objects named by steps stay out of the archive.',
+ 'C19': 'Round 8: objects of a program with an explicit intermediate_dir= in a submodule.',
+}
+
+
 def main():
     props = [json.loads(l) for l in open(os.path.join(VERIF, 'properties.jsonl'))]
     checks = []
@@ -387,7 +400,8 @@ def main():
                 'level_claimed': {'category': 'model_checking',
                                   'text': c['text'] + (' ' + LATER[pid] if pid in LATER else '') +
                                           (' ' + ROUND6[pid] if pid in ROUND6 else '') +
-                                          (' ' + ROUND7[pid] if pid in ROUND7 else ''),
+                                          (' ' + ROUND7[pid] if pid in ROUND7 else '') +
+                                          (' ' + ROUND8[pid] if pid in ROUND8 else ''),
                                   'design_ref': 'DESIGN.md section ' + c['design']},
                 'level_note': c['note'],
                 'technique': c['technique'],
